@@ -33,6 +33,8 @@ static sb_error_t sb_i_trajectory_builder_write_angle(
     sb_trajectory_builder_t* builder, size_t* offset, float angle);
 static sb_error_t sb_i_trajectory_builder_write_coordinate(
     sb_trajectory_builder_t* builder, size_t* offset, float coordinate);
+static sb_error_t sb_i_trajectory_builder_validate_point(
+    sb_trajectory_builder_t* builder, sb_vector3_with_yaw_t point);
 
 /**
  * @brief Creates a new trajectory builder.
@@ -90,6 +92,9 @@ sb_error_t sb_trajectory_builder_set_start_position(
 
     size_t offset = 1;
 
+    /* Validate first so a failing call leaves the header untouched */
+    SB_CHECK(sb_i_trajectory_builder_validate_point(builder, start));
+
     SB_CHECK(sb_i_trajectory_builder_write_coordinate(builder, &offset, start.x));
     SB_CHECK(sb_i_trajectory_builder_write_coordinate(builder, &offset, start.y));
     SB_CHECK(sb_i_trajectory_builder_write_coordinate(builder, &offset, start.z));
@@ -111,6 +116,9 @@ sb_error_t sb_trajectory_builder_append_line(
     sb_trajectory_builder_t* builder, const sb_vector3_with_yaw_t target,
     uint32_t duration_msec)
 {
+    /* Validate first so a failing call leaves the trajectory untouched */
+    SB_CHECK(sb_i_trajectory_builder_validate_point(builder, target));
+
     if (duration_msec > MAX_DURATION_MSEC) {
         /* If duration_msec > 60000, split the segment into multiple sub-segments */
         sb_vector3_with_yaw_t midpoint;
@@ -224,6 +232,18 @@ static sb_error_t sb_i_trajectory_builder_scale_coordinate(
         *scaled_coordinate = scaled;
         return SB_SUCCESS;
     }
+}
+
+static sb_error_t sb_i_trajectory_builder_validate_point(
+    sb_trajectory_builder_t* builder, sb_vector3_with_yaw_t point)
+{
+    int16_t scaled;
+
+    SB_CHECK(sb_i_trajectory_builder_scale_coordinate(builder, point.x, &scaled));
+    SB_CHECK(sb_i_trajectory_builder_scale_coordinate(builder, point.y, &scaled));
+    SB_CHECK(sb_i_trajectory_builder_scale_coordinate(builder, point.z, &scaled));
+
+    return SB_SUCCESS;
 }
 
 static sb_error_t sb_i_trajectory_builder_write_angle(
